@@ -1413,6 +1413,70 @@ def ring_bisection(fn):
     return "\n".join(out) + "\n"
 
 
+# ---------------------------------------------------------------------- dual_mesh: where the dual points come from
+def dual_points(fn):
+    """dual.py:dual_mesh  -  if mode.lower() == "<m1>": dual_pts = <f1>(mesh, persistent=False)
+                             elif mode.lower() == "<m2>": dual_pts = <f2>(mesh, persistent=False)      (no other branch)
+                             for F in mesh.id_faces: out.vertices.append(dual_pts[F])
+    -> dual_mesh_modes : list (mode string, attribute function, persistent flag).  Any other shape (an extra test such as
+    `if mesh.faces.has_attribute(..)`, an else branch, a cached value) raises TranslationError."""
+    mesh = [n for n, k, _ in fn.params if k == "mesh"]
+    strs = [n for n, k, _ in fn.params if k == "str"]
+    if len(mesh) != 1 or len(strs) != 1:
+        fn.fail(fn.node, "dual_mesh does not take (mesh, mode)")
+    mesh, mode = mesh[0], strs[0]
+    ifs = [x for x in fn.body if isinstance(x, ast.If)]
+    if len(ifs) != 1:
+        fn.fail(fn.node, "expected exactly one if/elif chain selecting the dual points")
+    modes = []
+    node = ifs[0]
+    target = None
+    while True:
+        t = node.test
+        if not (isinstance(t, ast.Compare) and len(t.ops) == 1 and isinstance(t.ops[0], ast.Eq)
+                and isinstance(t.left, ast.Call) and T.dotted(t.left.func) == mode + ".lower" and not t.left.args
+                and isinstance(t.comparators[0], ast.Constant) and isinstance(t.comparators[0].value, str)):
+            fn.fail(node, "test is not `%s.lower() == \"<name>\"`" % mode)
+        if len(node.body) != 1 or not isinstance(node.body[0], ast.Assign) or len(node.body[0].targets) != 1 \
+                or not isinstance(node.body[0].targets[0], ast.Name) or not isinstance(node.body[0].value, ast.Call):
+            fn.fail(node, "branch is not a single `dual_pts = <attribute function>(mesh, ..)`")
+        a = node.body[0]
+        if target not in (None, a.targets[0].id):
+            fn.fail(a, "branches assign different names")
+        target = a.targets[0].id
+        c = a.value
+        f = T.dotted(c.func)
+        if f is None or "." in f or len(c.args) != 1 or T.dotted(c.args[0]) != mesh:
+            fn.fail(c, "dual points are not computed by a plain function of the mesh")
+        kws = {k.arg: k.value for k in c.keywords}
+        if set(kws) != {"persistent"} or not isinstance(kws["persistent"], ast.Constant) or not isinstance(kws["persistent"].value, bool):
+            fn.fail(c, "the attribute function is not called with exactly persistent=<bool>")
+        modes.append((t.comparators[0].value, f, kws["persistent"].value))
+        if not node.orelse:
+            break
+        if len(node.orelse) == 1 and isinstance(node.orelse[0], ast.If):
+            node = node.orelse[0]
+            continue
+        fn.fail(node, "unexpected else branch")
+    # the vertex loop appends dual_pts[F] for F over the faces, and nothing else reads or writes dual_pts
+    uses = [n for n in ast.walk(fn.node) if isinstance(n, ast.Name) and n.id == target]
+    loops = [x for x in fn.body if isinstance(x, ast.For) and T.dotted(x.iter) == mesh + ".id_faces"]
+    ok = (len(loops) == 1 and isinstance(loops[0].target, ast.Name) and len(loops[0].body) == 1
+          and isinstance(loops[0].body[0], ast.Expr) and isinstance(loops[0].body[0].value, ast.Call)
+          and T.dotted(loops[0].body[0].value.func) is not None and T.dotted(loops[0].body[0].value.func).endswith(".vertices.append")
+          and len(loops[0].body[0].value.args) == 1 and isinstance(loops[0].body[0].value.args[0], ast.Subscript)
+          and T.dotted(loops[0].body[0].value.args[0].value) == target
+          and T.dotted(loops[0].body[0].value.args[0].slice) == loops[0].target.id)
+    if not ok or len(uses) != len(modes) + 1:
+        fn.fail(fn.node, "the dual vertices are not exactly `for F in mesh.id_faces: out.vertices.append(%s[F])`" % target)
+    # no other statement may look at the mesh's attributes
+    for n in ast.walk(fn.node):
+        if isinstance(n, ast.Attribute) and n.attr in ("has_attribute", "get_attribute", "attributes", "create_attribute", "delete_attribute"):
+            fn.fail(n, "dual_mesh inspects the attributes of its input")
+    items = "; ".join('("%s"%%string, "%s"%%string, %s)' % (m, f, "true" if p else "false") for m, f, p in modes)
+    return "Definition dual_mesh_modes : list (string * string * bool) := [%s].\n" % items
+
+
 # ---------------------------------------------------------------------- sphere_fibonacci: the point formula only
 def points_only(fn):
     """vsites / nverts / coords of a generator whose faces come from code outside the model (scipy ConvexHull)."""
@@ -1540,6 +1604,9 @@ def translate():
             parts.append((rel.split("/")[-1] + ":" + nm, T.sha(src, fn.node)))
             chunks.append("(* ---- %s:%s (call plumbing) *)\n%s" % (rel, nm, text))
             table[nm] = fn
+    src, tree = loaded["mouette/procedural/dual.py"]
+    chunks.append("(* ---- mouette/procedural/dual.py:dual_mesh (source of the dual points per mode) *)\n"
+                  + dual_points(Fn("mouette/procedural/dual.py", src, tree, "dual_mesh")))
     src, tree = loaded["mouette/procedural/rings.py"]
     fnr = Fn("mouette/procedural/rings.py", src, tree, "ring")
     chunks.append("(* ---- mouette/procedural/rings.py:ring (bisection loop for the apex) *)\n" + ring_bisection(fnr))
@@ -1618,7 +1685,7 @@ def translate():
             "forwards": getattr(fn, "bound_text", None),
         }
     out = T.header("C14: procedural generators - index arithmetic, tables, coordinates, call plumbing", parts)
-    out += """From Coq Require Import ZArith List Bool.
+    out += """From Coq Require Import ZArith List Bool String.
 Import ListNotations.
 Require Import MV.Lib.Base MV.C14.Model.
 Open Scope Z_scope.
